@@ -47,7 +47,7 @@ type Sub struct {
 
 func New(gen string) *Report {
 	return &Report{Gen: gen, Sub: map[string]*Sub{}, Exhaustive: true, Skipped: map[string]int64{},
-		Extra: map[string]interface{}{}, maxFailKeep: 400, sigSeen: map[string]int{}}
+		Extra: map[string]interface{}{}, maxFailKeep: 6000, sigSeen: map[string]int{}}
 }
 
 func (r *Report) S(name string) *Sub {
